@@ -258,4 +258,5 @@ impl ics23::HostFunctionsProvider for Sha256Provider {
 #[allow(unused_imports, missing_docs, dead_code, unreachable_pub)]
 pub mod verif {
     use super::*;
+    pub use super::{ProofChain, ProofError};
 }
